@@ -84,6 +84,28 @@ def flag_definition(ctx, rule='C02-R3'):
               instance='_ncd_or_nsc: flag -> NSC, else NCD')
 
 
+def _counted_condition(atom):
+    """The row condition whose number of true rows `atom` denotes, or None."""
+    while tag(atom) == 'call' and atom[1] in (('g', 'builtins.int'),) and atom[2]:
+        atom = atom[2][0]
+    if tag(atom) == 'call' and atom[1] == ('g', 'builtins.len') and atom[2]:
+        x = atom[2][0]
+        sp = _sel_parts(x)
+        if sp is not None:
+            return sp[1]
+        x = T.peel(x)
+        if tag(x) == 'mask':
+            return x[2]
+        if tag(x) in ('col', 'cols') and tag(x[1]) == 'mask':
+            return x[1][2]
+    if tag(atom) == 'mcall' and atom[2] == 'sum' and not atom[3] and T.boolish(atom[1]):
+        return atom[1]
+    if tag(atom) == 'call' and atom[1] in (('g', 'numpy.sum'), ('g', 'numpy.count_nonzero'), ('g', 'builtins.sum')) \
+            and atom[2] and T.boolish(atom[2][0]):
+        return atom[2][0]
+    return None
+
+
 def _count_is_cropped(count, evs):
     """count == len(idx type<=1 above limit) + len(idx type>1 above limit)."""
     lin, c0 = T.linear(count)
@@ -91,12 +113,10 @@ def _count_is_cropped(count, evs):
         return False, f'the counted quantity is {T.show(count, maxlen=160)}: not the sum of the two cropped selections'
     conds = []
     for atom in lin:
-        if not (tag(atom) == 'call' and atom[1] == ('g', 'builtins.len') and atom[2]):
-            return False, f'counted term {T.show(atom, maxlen=100)} is not a length'
-        sp = _sel_parts(atom[2][0])
-        if sp is None:
+        c = _counted_condition(atom)
+        if c is None:
             return False, f'counted term {T.show(atom, maxlen=100)} is not the size of a row selection'
-        conds.append(sp[1])
+        conds.append(c)
     ok, why = partition_above_limit(conds)
     return ok, why
 
